@@ -31,7 +31,7 @@ PLANS = {
     "C09": dict(engine=INO, mc=["MC_WatchSet", "MC_Events", "MC_Events_held"],
                 quick=[("lag", 200, ""), ("endwatch", 200, ""), ("rand", 150, ""), ("wsrand", 100, ""), ("repoint", 80, ""), ("tlcwslag", 334, "k=3"), ("tlcwslag", 300, "k=4"), ("wlpark", 40, ""), ("dselfskip", 30, ""), ("heldparent", 40, ""), ("reops", 80, ""), ("tlcevheld", 300, "k=4"), ("tlcevheldlag", 300, "k=4")],
                 thorough=[("lag", 4000, ""), ("endwatch", 4000, ""), ("rand", 3000, ""), ("wsrand", 2000, ""), ("repoint", 1000, ""), ("tlcwslag", 12000, "k=4"), ("wlpark", 400, ""), ("dselfskip", 300, ""), ("heldparent", 600, ""), ("reops", 1200, ""), ("tlcevheld", 1453, "k=4"), ("tlcevheld", 6000, "k=5"), ("tlcevheldlag", 7911, "k=4")]),
-    "C10": dict(engine=INO, mc=["MC_Sched"],
+    "C10": dict(engine=INO, mc=["MC_Sched"], also_longadd=True,
                 quick=[("lag", 200, ""), ("rand", 100, ""), ("overflow", 1, "extra=6"), ("ovflate", 2, ""), ("ovfstall", 1, ""), ("readfault", 30, ""), ("recurse", 100, ""), ("recerr", 30, "")],
                 thorough=[("lag", 5000, ""), ("rand", 3000, ""), ("overflow", 3, "extra=1+6+4000"), ("ovflate", 12, ""), ("ovfstall", 6, ""), ("readfault", 600, ""), ("recurse", 2000, ""), ("recerr", 400, "")]),
     "C11": dict(engine=INO, mc=["MC_Events"],
